@@ -284,6 +284,98 @@ def hazard_eras_rules(ctx):
     for f in ("guard_ptr::acquire", "guard_ptr::acquire_if_equal"):
         chain(ctx, "HE.era-after-load", HE + f, [{"k": "call", "field": "param:p", "op": "load", "desc": "load of the source"},
                                                  {"k": "call", "field": "era_clock", "op": "load", "desc": "era_clock load"}], label=f.split("::")[-1] + ":load<era")
+    # F21: a guard is handed out only with a STABLE era: the era clock, read after the pointer, equals the era this guard already publishes.
+    # Comparing the re-read pointer is no substitute - a reclaimed node's memory can be re-used for a node of a later era (ABA).
+    ctx.rule("HE.era-stable", "hazard_eras acquire / acquire_if_equal: the guard takes a non-null pointer (and reports success) only through the 'equal' edge of a "
+                              "comparison between the era clock (read after the pointer) and the era the guard publishes; that era variable is only ever "
+                              "defined from the hazard era's own value or, after the publication call, from the published value")
+    for f in ("guard_ptr::acquire", "guard_ptr::acquire_if_equal"):
+        for fn in flow._shapes(ctx, HE + f):
+            leafname = f.split("::")[-1]
+            is_era = lambda f_, x: flow.has_src(f_, x, "load:era_clock") or flow.has_src(f_, x, "call:get_era")
+            era_eq = flow.equal_want(is_era)
+            null_val = flow.null_want(lambda f_, x: flow.has_src(f_, x, "load:param#0") and not flow.has_src(f_, x, "load:era_clock"))
+
+            def want(f_, nid, era_eq=era_eq, null_val=null_val):
+                w = era_eq(f_, nid)
+                return w if w is not None else null_val(f_, nid)
+            targets = [e for e in flow.find(fn, {"k": "call", "callee": "marked_ptr::operator="}) if fn.field_of(fn.kids(e)[0]).endswith("guard_ptr::ptr")]
+            targets += [e for e in flow.find(fn, {"k": "bin"}) if fn.nodes[e]["op"] == "=" and fn.field_of(fn.kids(e)[0]).endswith("guard_ptr::ptr")]
+            targets = [e for e in targets if flow.has_src(fn, fn.kids(e)[1], "load:param#0")]
+            targets += [e for e in flow.find(fn, {"k": "return"}) if fn.kids(e) and fn.nodes[fn.kids(e)[0]].get("v") == 1 and fn.nodes[fn.kids(e)[0]].get("t") == "bool"]
+            inst = HE + f + "#success|era-stable"
+            if not targets:
+                ctx.bad("HE.era-stable", inst, "no assignment of the loaded pointer to guard_ptr::ptr / no 'return true' found", fn.where(), fn=fn)
+                continue
+            for t in targets:
+                ok, path, n = flow.only_via_want(fn, t, want)
+                ctx.check(ok and n > 0, "HE.era-stable", inst, "pointer taken only when the era read after loading it equals the published era (or it is null)",
+                          "%s hands out a pointer without the era clock - read after the pointer was loaded - being equal to the era the guard publishes. A pointer "
+                          "comparison does not help: if the node was reclaimed before the era was published and its memory re-used for a node constructed in a "
+                          "later era that is linked at the same place, the addresses match although the published era lies outside the new node's lifetime, and "
+                          "the node is reclaimed under the live guard (F21)" % leafname, fn.where(t), fn=fn, path=flow.describe_path(fn, path))
+            # the compared era variable really is the published era
+            eq_atoms = []
+            for b, blk in fn.blocks.items():
+                if "cond" in blk and b in fn.live_blocks():
+                    for atom, pol in flow._flatten_logical(fn, blk["cond"])[1]:
+                        if atom is not None and atom >= 0 and era_eq(fn, atom) is not None:
+                            eq_atoms.append(atom)
+            pubs = [e for e in flow.find(fn, call("set_era")) + flow.find(fn, call("alloc_hazard_era"))]
+            same_era, _n = flow.licensed_edges(fn, era_eq)
+            pub_blocks = {fn.pos()[e][0] for e in pubs if e in fn.pos()}
+            for atom in eq_atoms:
+                c = flow.eq_cmp(fn, atom)
+                for side in (c[1], c[2]):
+                    leaf = side
+                    while fn.nodes[leaf]["k"] == "cast" and fn.kids(leaf):
+                        leaf = fn.kids(leaf)[0]
+                    sn = fn.nodes[leaf]
+                    if sn["k"] != "ref" or sn.get("dk") != "local":
+                        continue
+                    name = sn["name"]
+                    defs = [(b_, i_, e_, n_) for b_, i_, e_, n_ in fn.events(live_only=True)
+                            if (n_["k"] == "decl" and any(v["name"] == name and "init" in v for v in n_["vars"])) or
+                            (n_["k"] == "bin" and n_["op"] == "=" and fn.kids(e_) and fn.nodes[fn.kids(e_)[0]]["k"] == "ref" and fn.nodes[fn.kids(e_)[0]].get("name") == name)]
+                    for b_, i_, e_, n_ in defs:
+                        rhs = fn.kids(e_)[1] if n_["k"] == "bin" else next(v["init"] for v in n_["vars"] if v["name"] == name)
+                        if not flow.has_src(fn, rhs, "load:era_clock"):
+                            # initial value: the era the guard's hazard era already publishes (or 0 = none; eras are never 0, HE.era-nonzero)
+                            ok = flow.has_src(fn, rhs, "call:get_era") or flow.const_value(fn, rhs) == 0
+                            ctx.check(ok, "HE.era-stable", HE + f + "#%s=published-era" % name, "initialised from the hazard era's own value",
+                                      "'%s' is compared with the era clock to decide that the guard is protected, but it is initialised from something other than "
+                                      "the era the guard's hazard era publishes" % name, fn.where(e_), fn=fn)
+                            continue
+                        if n_["k"] == "decl" and fn.nodes[rhs]["k"] == "call" and fn.nodes[rhs].get("callee", "").split("::")[-1] == "load":
+                            continue  # this is the clock value itself (the other side of the comparison)
+                        # prev = era: only after that era has been published on this path
+                        clock_loads = flow.find(fn, {"k": "call", "field": "era_clock", "op": "load"})
+                        leak = None
+                        for cl in clock_loads:
+                            pb = fn.pos().get(cl)
+                            if pb is None:
+                                continue
+                            if pb[0] == b_:
+                                same = [x for x in fn.blocks[b_]["elems"][pb[1]:i_] if x in pubs]
+                                if pb[1] < i_ and not same:
+                                    leak = [b_]
+                                continue
+                            if b_ in pub_blocks and any(fn.pos()[x][1] < i_ for x in pubs if fn.pos().get(x, (None,))[0] == b_):
+                                continue
+                            for s_ in fn.blocks[pb[0]]["succ"]:
+                                if s_ is None:
+                                    continue
+                                # (a path that skips the publication because the hazard era already holds exactly this era is fine)
+                                pth = None if (pb[0], s_) in same_era else flow._path(fn, s_, b_, same_era, pub_blocks - {b_})
+                                if pth is not None and not (s_ in pub_blocks):
+                                    leak = [pb[0]] + pth
+                                    break
+                            if leak:
+                                break
+                        ctx.check(leak is None, "HE.era-stable", HE + f + "#%s=era|published" % name, "re-defined from the clock value only after that value was published",
+                                  "'%s' takes the new clock value on a path that does not publish it (set_era / alloc_hazard_era): the next iteration finds the clock "
+                                  "equal to '%s' and hands out the pointer although the hazard era still publishes an older era" % (name, name),
+                                  fn.where(e_), fn=fn, path=flow.describe_path(fn, leak or []))
     # F12: a new hazard era is allocated before the shared one is given up (exception safety)
     for f in ("guard_ptr::acquire", "guard_ptr::acquire_if_equal"):
         for fn in flow._shapes(ctx, HE + f):
